@@ -86,6 +86,7 @@ type c30State struct {
 	*c30Bufs
 	seq      int
 	lastKind string // kind of the last operation (for signatures)
+	limit    int64  // closure part: the universe is [0, limit); 0 = unbounded
 }
 
 func c30New() *c30State { return &c30State{c30Bufs: c30Pool.Get().(*c30Bufs)} }
@@ -304,6 +305,9 @@ func c30Apply(w *vx.W, s *c30State, op c30Op) bool {
 	case "f":
 		buf := s.p.availableBuffer()
 		n := min(op.Len, int64(len(buf)))
+		if s.limit > 0 {
+			n = min(n, s.limit-s.end)
+		}
 		if n <= 0 {
 			return false
 		}
@@ -457,6 +461,50 @@ func TestVerif_C30(t *testing.T) {
 			Canon:   c30Canon,
 			Final:   c30Final(P),
 			Depth:   depth,
+		})
+
+		// Second part: full reachable-state closure (histories of every length)
+		// at the natural chunk size over a coarse universe: all offsets and
+		// lengths are multiples of 1024 bytes in [0, U*1024), so that a chunk
+		// is 4 cells and the state space is finite.
+		const cell = 1024
+		U := int64(vx.Pick(c, 10, 13))
+		var cops []c30Op
+		var cpts []int64
+		for off := int64(0); off <= U; off++ {
+			cpts = append(cpts, off*cell)
+			for n := int64(0); off+n <= U; n++ {
+				cops = append(cops, c30Op{K: "w", Off: off * cell, Len: n * cell, Mid: -1})
+			}
+		}
+		for off := int64(0); off <= U; off++ {
+			cops = append(cops, c30Op{K: "d", Off: off * cell, Mid: -1})
+		}
+		for _, n := range []int64{cell, 1 << 20} {
+			for _, mid := range []int64{-1, -2} {
+				cops = append(cops, c30Op{K: "f", Len: n, Mid: mid})
+			}
+		}
+		c.Rule(fmt.Sprintf("closure-1024: the same real pipe, model, comparisons and state key, explored breadth-first until no new state is reachable (so histories of every length are covered) over the universe [0,%d): writeAt(off,len) for every off,len multiple of 1024 with off+len <= %d, discardBefore(every multiple of 1024 >= start), and the fast path (1024 bytes or all available space, clipped to the universe, with or without discardBefore(end) in between)", U*cell, U*cell))
+		vx.Seq(c, vx.SeqSpec[*c30State, c30Op]{
+			Part: "closure-1024",
+			New: func() *c30State {
+				s := c30New()
+				s.limit = U * cell
+				return s
+			},
+			Close: c30Close,
+			Ops:   cops,
+			Enabled: func(s *c30State, op c30Op) bool {
+				if op.K == "f" && s.end >= s.limit {
+					return false
+				}
+				return c30Enabled(s, op)
+			},
+			Apply: c30Apply,
+			Canon: c30Canon,
+			Final: c30Final(cpts),
+			Depth: 1 << 20,
 		})
 	})
 }
